@@ -6,6 +6,7 @@ import (
 	"sort"
 	"strings"
 	"sync/atomic"
+	"time"
 
 	"github.com/gogpu/naga/ir"
 	"github.com/gogpu/naga/spirv"
@@ -78,7 +79,9 @@ func c02ExtraConfigs(thorough bool) []nagax.SPIRVConfig {
 	devs := []dv{
 		{"bounds=restrict", pol(spirv.BoundsCheckRestrict)},
 		{"bounds=rzsw", pol(spirv.BoundsCheckReadZeroSkipWrite)},
-		{"caps=minimal", func(o *spirv.Options) { o.CapabilitiesAvailable = c02CapSet(spirv.CapabilityMatrix, spirv.CapabilityShader) }},
+		{"caps=minimal", func(o *spirv.Options) {
+			o.CapabilitiesAvailable = c02CapSet(spirv.CapabilityMatrix, spirv.CapabilityShader)
+		}},
 		{"caps=minimal+query", func(o *spirv.Options) {
 			o.CapabilitiesAvailable = c02CapSet(spirv.CapabilityMatrix, spirv.CapabilityShader, spirv.CapabilityImageQuery)
 		}},
@@ -112,6 +115,8 @@ func c02ExtraConfigs(thorough bool) []nagax.SPIRVConfig {
 }
 
 func c02Extra(r *explore.Run, rs *ruleStats, texts []wgen.Micro) {
+	t0 := time.Now()
+	defer func() { r.Extra("extensions_wall_s", time.Since(t0).Seconds()) }()
 	extra := c02ExtraConfigs(r.Thorough())
 	r.Extra("extra_configs", len(extra))
 	// (1) the F1s programs outside the shared subset: standard deviations + the extra ones
@@ -251,18 +256,37 @@ func c02FindingSet(rep *spvval.Report) map[string]bool {
 	return s
 }
 
-func c02History(r *explore.Run, rs *ruleStats) {
-	cover, missing := c02CoverSet()
-	for _, m := range missing {
-		fmt.Println("HARNESS-ERROR: C02 history cover module not found:", m)
-		r.NotExhaustive("history cover module missing: " + m)
+type c02OptSet struct {
+	name string
+	o    spirv.Options
+}
+
+func c02HistOptSets() []c02OptSet {
+	mk := func(name string, f func(o *spirv.Options)) c02OptSet {
+		o := spirv.DefaultOptions()
+		f(&o)
+		return c02OptSet{name, o}
 	}
-	optsets := []struct {
-		name string
-		o    spirv.Options
-	}{{"default", spirv.DefaultOptions()}, {"v1.0", func() spirv.Options { o := spirv.DefaultOptions(); o.Version = spirv.Version1_0; return o }()},
-		{"v1.3", func() spirv.Options { o := spirv.DefaultOptions(); o.Version = spirv.Version1_3; return o }()}}
-	var ents []*c02HistEnt
+	return []c02OptSet{
+		mk("default", func(o *spirv.Options) {}),
+		mk("v1.0", func(o *spirv.Options) { o.Version = spirv.Version1_0 }),
+		mk("v1.3", func(o *spirv.Options) { o.Version = spirv.Version1_3 }),
+		mk("debug", func(o *spirv.Options) { o.Debug = true }),
+	}
+}
+
+// c02Hist is the state of the history exploration: the cover modules with the outputs and verdicts of fresh backends.
+type c02Hist struct {
+	r       *explore.Run
+	rs      *ruleStats
+	optsets []c02OptSet
+	ents    []*c02HistEnt
+
+	seqs, outputs, differing, validated int64
+}
+
+func c02NewHist(r *explore.Run, rs *ruleStats, cover []wgen.Micro) *c02Hist {
+	h := &c02Hist{r: r, rs: rs, optsets: c02HistOptSets()}
 	for _, p := range cover {
 		m, _, err, pn := nagax.Front(p.Src)
 		if err != nil || pn != nil {
@@ -270,78 +294,123 @@ func c02History(r *explore.Run, rs *ruleStats) {
 			continue
 		}
 		e := &c02HistEnt{name: p.Name, mod: m, solo: map[string][]byte{}, base: map[string]map[string]bool{}}
-		for _, os := range optsets {
+		for _, os := range h.optsets {
 			b, err, pn := nagax.SPIRV(m, os.o)
 			if err != nil || pn != nil {
-				continue // this module is not compilable under this option set: it still takes part as a predecessor
+				continue // not compilable under this option set: the module still takes part as a predecessor
 			}
 			e.solo[os.name] = b
 			e.base[os.name] = c02FindingSet(spvval.Validate(b))
 		}
-		ents = append(ents, e)
+		h.ents = append(h.ents, e)
 	}
-	n := len(ents)
-	r.Extra("history_modules", n)
-	var seqs, outputs, differing, validated int64
-	// judge examines one output of a history against the fresh output of the same module.
-	judge := func(e *c02HistEnt, os string, out []byte, err error, hist []string) {
-		solo, ok := e.solo[os]
-		if !ok || err != nil {
-			return // acceptance is C08's / C12's matter
+	return h
+}
+
+// judge examines one output of a history against the fresh output of the same module.
+func (h *c02Hist) judge(e *c02HistEnt, os string, out []byte, err error, hist []string) {
+	r := h.r
+	solo, ok := e.solo[os]
+	if !ok || err != nil {
+		return // acceptance is C08's / C12's matter
+	}
+	atomic.AddInt64(&h.outputs, 1)
+	if bytes.Equal(out, solo) {
+		return // same bytes as the fresh compile, which the per-program pass validates
+	}
+	atomic.AddInt64(&h.differing, 1)
+	rep := spvval.Validate(out)
+	atomic.AddInt64(&h.validated, 1)
+	r.Count("evaluations", 1)
+	if h.rs != nil {
+		h.rs.mu.Lock()
+		for k, v := range rep.Fired {
+			h.rs.fired[k] += int64(v)
 		}
-		atomic.AddInt64(&outputs, 1)
-		if bytes.Equal(out, solo) {
-			return // same bytes as the fresh compile, which the per-program pass validates
+		h.rs.mu.Unlock()
+	}
+	if len(rep.Unsupported) > 0 {
+		r.Skip("validator: unsupported construct (verdict undecided)")
+		return
+	}
+	seen := map[string]bool{}
+	for _, f := range rep.Findings {
+		cls := f.Rule + "|" + errClass(f.Detail)
+		if e.base[os][cls] || seen[cls] {
+			continue // the fresh output has the same finding: reported (or known) through the per-program pass
 		}
-		atomic.AddInt64(&differing, 1)
-		rep := spvval.Validate(out)
-		atomic.AddInt64(&validated, 1)
-		r.Count("evaluations", 1)
-		if rs != nil {
-			rs.mu.Lock()
-			for k, v := range rep.Fired {
-				rs.fired[k] += int64(v)
-			}
-			rs.mu.Unlock()
+		seen[cls] = true
+		prev := strings.Join(hist[:len(hist)-1], " ; ")
+		r.Violate(explore.Violation{Key: "C02|history|" + cls + "|after " + prev + "|" + os,
+			Detail: fmt.Sprintf("SPIR-V for %s compiled on a spirv.Backend that previously compiled [%s] (options %s) breaks rule %s: %s (the output of a fresh backend does not)", e.name, prev, os, f.Rule, f.Detail),
+			Replay: map[string]any{"sig": c02HistSigPrefix + os + "|" + strings.Join(hist, "|"), "src": "", "history": append([]string(nil), hist...), "options": os, "kind": "backend-reuse"}})
+	}
+}
+
+// run compiles the modules idx in order on one new backend and judges every output after the first.
+func (h *c02Hist) run(os c02OptSet, idx []int) {
+	defer func() { recover() }()
+	be := spirv.NewBackend(os.o)
+	var hist []string
+	for k, i := range idx {
+		e := h.ents[i]
+		out, err := be.Compile(e.mod)
+		hist = append(hist, e.name)
+		if k == 0 && len(idx) > 1 {
+			continue // first compile on a new backend == fresh compile (C12 compares the bytes)
 		}
-		if len(rep.Unsupported) > 0 {
-			r.Skip("validator: unsupported construct (verdict undecided)")
+		h.judge(e, os.name, append([]byte(nil), out...), err, hist)
+	}
+	atomic.AddInt64(&h.seqs, 1)
+}
+
+const c02HistSigPrefix = "C02history|"
+
+// c02HistoryReplay re-runs one recorded history ("C02history|<options>|<module>|<module>...").
+func c02HistoryReplay(r *explore.Run, sig string) {
+	parts := strings.Split(strings.TrimPrefix(sig, c02HistSigPrefix), "|")
+	if len(parts) < 2 {
+		return
+	}
+	all, _ := c02CoverSet()
+	by := map[string]wgen.Micro{}
+	for _, m := range all {
+		by[m.Name] = m
+	}
+	var cover []wgen.Micro
+	var idx []int
+	for _, name := range parts[1:] {
+		m, ok := by[name]
+		if !ok {
 			return
 		}
-		seen := map[string]bool{}
-		for _, f := range rep.Findings {
-			cls := f.Rule + "|" + errClass(f.Detail)
-			if e.base[os][cls] || seen[cls] {
-				continue // the fresh output has the same finding: reported (or known) through the per-program pass
-			}
-			seen[cls] = true
-			prev := strings.Join(hist[:len(hist)-1], " ; ")
-			r.Violate(explore.Violation{Key: "C02|history|" + cls + "|after " + prev + "|" + os,
-				Detail: fmt.Sprintf("SPIR-V for %s compiled on a spirv.Backend that previously compiled [%s] (options %s) breaks rule %s: %s (the output of a fresh backend does not)", e.name, prev, os, f.Rule, f.Detail),
-				Replay: map[string]any{"history": append([]string(nil), hist...), "options": os, "kind": "backend-reuse"}})
+		idx = append(idx, len(cover))
+		cover = append(cover, m)
+	}
+	h := c02NewHist(r, nil, cover)
+	if len(h.ents) != len(cover) {
+		return
+	}
+	for _, os := range h.optsets {
+		if os.name == parts[0] {
+			h.run(os, idx)
 		}
 	}
-	run := func(os struct {
-		name string
-		o    spirv.Options
-	}, idx []int) {
-		defer func() { recover() }()
-		be := spirv.NewBackend(os.o)
-		var hist []string
-		for k, i := range idx {
-			e := ents[i]
-			out, err := be.Compile(e.mod)
-			hist = append(hist, e.name)
-			if k == 0 && len(idx) > 1 {
-				continue // first compile on a new backend == fresh compile (C12 compares the bytes)
-			}
-			judge(e, os.name, append([]byte(nil), out...), err, hist)
-		}
-		atomic.AddInt64(&seqs, 1)
+}
+
+func c02History(r *explore.Run, rs *ruleStats) {
+	cover, missing := c02CoverSet()
+	for _, m := range missing {
+		fmt.Println("HARNESS-ERROR: C02 history cover module not found:", m)
+		r.NotExhaustive("history cover module missing: " + m)
 	}
+	h := c02NewHist(r, rs, cover)
+	n := len(h.ents)
+	r.Extra("history_modules", n)
+	r.Extra("history_option_sets", len(h.optsets))
 	r.ParallelFor(n*n, func(k int) {
-		for _, os := range optsets {
-			run(os, []int{k / n, k % n})
+		for _, os := range h.optsets {
+			h.run(os, []int{k / n, k % n})
 		}
 	})
 	core := c02CoreQuick
@@ -352,20 +421,24 @@ func c02History(r *explore.Run, rs *ruleStats) {
 		core = n
 	}
 	r.ParallelFor(core*core*core, func(k int) {
-		for _, os := range optsets {
-			run(os, []int{k / (core * core), (k / core) % core, k % core})
+		for _, os := range h.optsets {
+			h.run(os, []int{k / (core * core), (k / core) % core, k % core})
 		}
 	})
-	r.Extra("history_sequences", seqs)
-	r.Extra("history_outputs_judged", outputs)
-	r.Extra("history_outputs_differing_from_fresh", differing)
-	r.Extra("history_outputs_validated", validated)
+	r.Extra("history_sequences", h.seqs)
+	r.Extra("history_outputs_judged", h.outputs)
+	r.Extra("history_outputs_differing_from_fresh", h.differing)
+	r.Extra("history_outputs_validated", h.validated)
 	r.Extra("history_core", core)
 	names := make([]string, 0, n)
-	for _, e := range ents {
+	for _, e := range h.ents {
 		names = append(names, e.name)
 	}
 	sort.Strings(names)
 	r.Extra("history_cover", names)
-	r.Count("transitions", seqs*2)
+	r.Count("transitions", h.seqs*2)
+	if n >= 2 {
+		r.Sample(map[string]any{"history": []string{h.ents[0].name, h.ents[1].name}, "on": "one spirv.NewBackend(opts)", "options": "default | v1.0 | v1.3 | debug",
+			"oracle": "every output after the first: identical to the fresh-backend output (whose verdict it inherits) or validated with the full rule set"})
+	}
 }
